@@ -14,7 +14,12 @@ def extract_kernels():
     lib = C.build_lib('fiber')
     with C.Lock('kernels'):
         import hashlib
-        stamp = os.path.join(lib, 'kernels-%s.lean' % hashlib.sha1(repr(x_kernels.KERNELS).encode()).hexdigest()[:10])
+        # keyed by the kernel list AND the translator sources (a change of the skeleton printer must not be served stale)
+        h = hashlib.sha1(repr(x_kernels.KERNELS).encode())
+        for mod in ('x_kernels.py', 'skel.py', 'cxxast.py'):
+            with open(os.path.join(os.path.dirname(os.path.abspath(__file__)), mod), 'rb') as f:
+                h.update(f.read())
+        stamp = os.path.join(lib, 'kernels-%s.lean' % h.hexdigest()[:10])
         if os.path.exists(stamp):
             text = open(stamp).read()
             problems = json.load(open(stamp + '.problems'))
